@@ -6,7 +6,7 @@ use crate::explore::*;
 use crate::report::{Sink, Tally};
 use cozy_chess::*;
 use rayon::prelude::*;
-use refmodel::{sq, Col, Kind, Pos, Sq, LONG, SHORT};
+use refmodel::{sq, Col, Kind, Mv, Pos, Sq, LONG, SHORT};
 use serde_json::{json, Value};
 
 // ------------------------------------------------------------------------------------------------
@@ -131,6 +131,13 @@ pub fn line_roots(sink: &Sink) -> Vec<(RootDesc, Board)> {
 /// position on the line is a root, so every root is provably reachable (when the line has no null
 /// move) and carries 10-40 plies of incremental history. Nothing is random: the schedule is fixed.
 pub fn walk_roots(starts: &[(u32, u32)], plies: usize, mult: usize, null_every: usize, root_every: usize, sink: &Sink) -> Vec<(RootDesc, Board)> {
+    walk_roots_mode(starts, plies, mult, null_every, root_every, false, sink)
+}
+
+/// `aggressive`: the side to move picks (by the same index schedule) among its CHECKING moves when it
+/// has any, and among its captures otherwise when it has any: lines full of checks, evasions with
+/// many men on the board, and mates.
+pub fn walk_roots_mode(starts: &[(u32, u32)], plies: usize, mult: usize, null_every: usize, root_every: usize, aggressive: bool, sink: &Sink) -> Vec<(RootDesc, Board)> {
     let per_start: Vec<Vec<(RootDesc, Board)>> = starts
         .par_iter()
         .map(|&(w, b)| {
@@ -152,7 +159,17 @@ pub fn walk_roots(starts: &[(u32, u32)], plies: usize, mult: usize, null_every: 
                 let act = if null_every > 0 && p % null_every == null_every - 1 && !pos.in_check(pos.stm) {
                     Act::Null
                 } else {
-                    Act::Move(legal[(mult * p + w as usize + 3 * b as usize) % legal.len()])
+                    let mut pool: Vec<refmodel::Mv> = Vec::new();
+                    if aggressive {
+                        pool = legal.iter().copied().filter(|m| { let a = pos.make(*m); a.in_check(a.stm) }).collect();
+                        if pool.is_empty() {
+                            pool = legal.iter().copied().filter(|m| pos.is_capture(*m)).collect();
+                        }
+                    }
+                    if pool.is_empty() {
+                        pool = legal.clone();
+                    }
+                    Act::Move(pool[(mult * p + w as usize + 3 * b as usize) % pool.len()])
                 };
                 board = match apply(&board, act) {
                     Ok(bd) => bd,
@@ -639,12 +656,13 @@ pub struct EpUniverse {
 }
 impl EpUniverse {
     pub fn reduced() -> EpUniverse {
-        // 20 squares: the four around/on the pawns' rank region and a spread elsewhere
-        let ks: Vec<Sq> = vec![0, 3, 4, 7, 16, 19, 20, 23, 24, 27, 28, 31, 32, 35, 36, 39, 40, 44, 56, 60];
+        // 24 squares: around/on the pawns' rank region, two on each side's second rank (where a
+        // double push can uncover a rank check) and a spread elsewhere
+        let ks: Vec<Sq> = vec![0, 3, 4, 7, 10, 12, 16, 19, 20, 23, 24, 27, 28, 31, 32, 35, 36, 39, 40, 44, 50, 52, 56, 60];
         EpUniverse { king_squares: ks, extra_kinds: vec![(Kind::R, false), (Kind::B, false)], prepush: false }
     }
     pub fn small() -> EpUniverse {
-        EpUniverse { king_squares: vec![4, 24, 27, 31, 36, 60], extra_kinds: vec![(Kind::R, false), (Kind::B, false)], prepush: false }
+        EpUniverse { king_squares: vec![4, 10, 24, 27, 31, 36, 52, 60], extra_kinds: vec![(Kind::R, false), (Kind::B, false)], prepush: false }
     }
     /// own sliders as the extra piece: en-passant captures that open a line for the capturer's side
     pub fn own_sliders() -> EpUniverse {
@@ -839,6 +857,333 @@ impl RawUniverse for EpExposure {
                         }
                     }
                 }
+            }
+        }
+    }
+}
+
+/// En-passant-while-in-check universe: the double push has just been played and the mover is in
+/// check — from the pushed pawn itself, or from an enemy slider uncovered through the pawn's origin
+/// square (every line through that square, king at every distance on one side, slider at every
+/// distance on the other) — with one, the other or both capturing pawns present, and a SECOND enemy
+/// slider on every free square (pinning a capturer, standing behind the checking pawn, ...).
+pub struct EpCheck {
+    pub second: Vec<Kind>,
+    pub files: Vec<u8>,
+}
+impl RawUniverse for EpCheck {
+    fn name(&self) -> String {
+        format!("S-EPCHECK(second={},files={})", self.second.len(), self.files.len())
+    }
+    fn bounds(&self) -> Value {
+        json!({"mover_colours": 2, "ep_files": self.files, "capturers": "left/right/both", "mover_king": "the two squares attacked by the pushed pawn; every square of every line through the pawn's origin square",
+               "first_slider": "none (pawn check) or enemy R|B (by line type) or Q at every distance beyond the origin square", "second_slider": format!("none or one enemy {:?} on every free square", self.second), "enemy_king": "first free far square"})
+    }
+    fn parts(&self) -> usize {
+        2 * self.files.len()
+    }
+    fn part(&self, i: usize, f: &mut dyn FnMut(Pos)) {
+        let c = Col::ALL[i % 2];
+        let file = self.files[i / 2];
+        let them = c.other();
+        let pawn = sq(file, c.rel_rank(4));
+        let target = sq(file, c.rel_rank(5));
+        let origin = sq(file, c.rel_rank(6));
+        for caps in 1..4u8 {
+            let mut base = Pos::empty();
+            base.stm = c;
+            base.ep = Some(target);
+            base.fm = 2;
+            put(&mut base, pawn, Kind::P, them);
+            let mut clash = false;
+            for (bit, df) in [(1u8, -1i32), (2u8, 1i32)] {
+                if caps & bit != 0 {
+                    match refmodel::step(pawn, df, 0) {
+                        Some(s) => put(&mut base, s, Kind::P, c),
+                        None => clash = true,
+                    }
+                }
+            }
+            if clash {
+                continue;
+            }
+            // (king square, first slider)
+            let mut setups: Vec<(Sq, Option<(Sq, Kind)>)> = Vec::new();
+            for df in [-1i32, 1] {
+                if let Some(k) = refmodel::step(pawn, df, -c.dir()) {
+                    setups.push((k, None));
+                }
+            }
+            for d in DIRS8 {
+                let ortho = d.0 == 0 || d.1 == 0;
+                let mut cur = origin;
+                while let Some(k) = refmodel::step(cur, d.0, d.1) {
+                    if base.sq[k as usize].is_some() {
+                        break;
+                    }
+                    cur = k;
+                    if k == target {
+                        continue;
+                    }
+                    let mut sc = origin;
+                    while let Some(s1) = refmodel::step(sc, -d.0, -d.1) {
+                        if base.sq[s1 as usize].is_some() {
+                            break;
+                        }
+                        sc = s1;
+                        if s1 == target {
+                            continue;
+                        }
+                        for k1 in [if ortho { Kind::R } else { Kind::B }, Kind::Q] {
+                            setups.push((k, Some((s1, k1))));
+                        }
+                    }
+                }
+            }
+            for (k, first) in setups {
+                if base.sq[k as usize].is_some() {
+                    continue;
+                }
+                let mut p1 = base.clone();
+                put(&mut p1, k, Kind::K, c);
+                if let Some((s1, k1)) = first {
+                    put(&mut p1, s1, k1, them);
+                }
+                let ek = [sq(0, them.back_rank()), sq(7, them.back_rank()), sq(0, c.back_rank()), sq(7, c.back_rank()), sq(1, them.back_rank()), sq(6, them.back_rank())].into_iter().find(|&e| {
+                    p1.sq[e as usize].is_none()
+                        && ((refmodel::file_of(e) as i32 - refmodel::file_of(k) as i32).abs() > 1 || (refmodel::rank_of(e) as i32 - refmodel::rank_of(k) as i32).abs() > 1)
+                        && first.map_or(true, |(s1, _)| refmodel::geom::between(k, s1) & refmodel::geom::bit(e) == 0)
+                });
+                let ek = match ek {
+                    Some(e) => e,
+                    None => continue,
+                };
+                put(&mut p1, ek, Kind::K, them);
+                f(p1.clone());
+                for &k2 in &self.second {
+                    for s2 in 0..64u8 {
+                        if p1.sq[s2 as usize].is_some() || s2 == target || s2 == origin {
+                            continue;
+                        }
+                        let mut p2 = p1.clone();
+                        put(&mut p2, s2, k2, them);
+                        f(p2);
+                    }
+                }
+            }
+        }
+    }
+}
+
+/// Cage closure of another universe: every sound candidate of the base universe is turned into a
+/// position whose king has (almost) no flight square, deterministically. For each empty neighbour
+/// square the king can legally step to, the first candidate of a fixed menu is added that takes the
+/// flight away without changing the checkers or the pinned set and keeps the position sound:
+/// an enemy knight or pawn that attacks the square from outside the king's neighbourhood, or a
+/// piece of the mover (pawn / bishop / knight) standing on it. `variants` orders the menu in
+/// different ways (enemy first, own first, own on the back rank only). Turns "check + pin"
+/// structures into mates, stalemate-like positions and near-mates in which the only pseudo-legal
+/// answers belong to pinned pieces.
+pub struct Caged {
+    pub inner: Box<dyn RawUniverse>,
+    pub variants: u8,
+}
+fn cage(p: &Pos, variant: u8) -> Option<Pos> {
+    if p.sound().is_err() {
+        return None;
+    }
+    let c = p.stm;
+    let them = c.other();
+    let k = p.king_sq(c)?;
+    let checkers = p.checkers();
+    let pinned = p.pinned();
+    let mut q = p.clone();
+    let mut added = 0;
+    for d in DIRS8 {
+        let s = match refmodel::step(k, d.0, d.1) {
+            Some(s) => s,
+            None => continue,
+        };
+        if q.sq[s as usize].is_some() || !q.legal_moves().contains(&Mv::new(k, s)) {
+            continue;
+        }
+        // candidate additions: (square, kind, colour)
+        let mut enemy: Vec<(Sq, Kind, Col)> = Vec::new();
+        for kd in refmodel::KNIGHT_D {
+            if let Some(n) = refmodel::step(s, kd.0, kd.1) {
+                enemy.push((n, Kind::N, them));
+            }
+        }
+        for df in [-1i32, 1] {
+            // an enemy pawn attacks towards the mover's side
+            if let Some(n) = refmodel::step(s, df, c.dir()) {
+                if refmodel::rank_of(n) != 0 && refmodel::rank_of(n) != 7 {
+                    enemy.push((n, Kind::P, them));
+                }
+            }
+        }
+        let mut own: Vec<(Sq, Kind, Col)> = Vec::new();
+        if refmodel::rank_of(s) != 0 && refmodel::rank_of(s) != 7 {
+            own.push((s, Kind::P, c));
+        }
+        own.push((s, Kind::B, c));
+        own.push((s, Kind::N, c));
+        let own_first = match variant % 3 {
+            0 => false,
+            1 => true,
+            _ => refmodel::rank_of(s) == c.back_rank(),
+        };
+        let menu: Vec<(Sq, Kind, Col)> = if own_first { own.into_iter().chain(enemy).collect() } else { enemy.into_iter().chain(own).collect() };
+        for (n, kind, col) in menu {
+            if q.sq[n as usize].is_some() || Some(n) == q.ep {
+                continue;
+            }
+            let near = (refmodel::file_of(n) as i32 - refmodel::file_of(k) as i32).abs() <= 1 && (refmodel::rank_of(n) as i32 - refmodel::rank_of(k) as i32).abs() <= 1;
+            if col == them && near {
+                continue;
+            }
+            let mut q2 = q.clone();
+            q2.sq[n as usize] = Some((kind, col));
+            if q2.sound().is_ok() && q2.checkers() == checkers && q2.pinned() == pinned && !q2.legal_moves().contains(&Mv::new(k, s)) {
+                q = q2;
+                added += 1;
+                break;
+            }
+        }
+    }
+    if added > 0 {
+        Some(q)
+    } else {
+        None
+    }
+}
+impl RawUniverse for Caged {
+    fn name(&self) -> String {
+        format!("S-CAGED[{}]x{}", self.inner.name(), self.variants)
+    }
+    fn bounds(&self) -> Value {
+        json!({"base": self.inner.bounds(), "cage_variants": self.variants,
+               "cage": "for each empty legal king step: first of {enemy N on the 8 knight squares, enemy P on the 2 attacking squares (never next to the king), own P / B / N on the square} that removes the step, keeps checkers and pinned set and soundness; menu order by variant"})
+    }
+    fn parts(&self) -> usize {
+        self.inner.parts()
+    }
+    fn part(&self, i: usize, f: &mut dyn FnMut(Pos)) {
+        let variants = self.variants;
+        self.inner.part(i, &mut |p: Pos| {
+            for v in 0..variants {
+                if let Some(q) = cage(&p, v) {
+                    f(q);
+                }
+            }
+        });
+    }
+}
+
+/// Battery universe: the side NOT to move has its king on a few squares; the mover owns FIVE
+/// rook-movers (or five bishop-movers) standing on that king's lines — every 5-subset of the
+/// squares of those lines at distance >= 2 — each line screened by one piece next to the king (an
+/// enemy knight, which is then pinned, or a knight of the mover, which may discover a check).
+/// Explored one ply: every move of the mover makes the library recompute checkers and pins
+/// incrementally with many aligned, partly shadowed sliders.
+pub struct Battery {
+    pub enemy_kings: Vec<Sq>,
+    pub stride: usize,
+}
+impl RawUniverse for Battery {
+    fn name(&self) -> String {
+        format!("S-BATTERY(kings={},stride={})", self.enemy_kings.len(), self.stride)
+    }
+    fn bounds(&self) -> Value {
+        json!({"enemy_king_squares": self.enemy_kings, "mover_colours": 2, "line_types": "orthogonal (R/Q) and diagonal (B/Q)", "sliders": "every 5-subset of the line squares at distance >= 2 (every stride-th subset); the nearest slider of each line is R|B, those behind it Q",
+               "screens": "all enemy knights / all own knights / alternating, on the square next to the king of every line that carries a slider", "mover_king": "first free far square not attacked"})
+    }
+    fn parts(&self) -> usize {
+        self.enemy_kings.len() * 2 * 2
+    }
+    fn part(&self, i: usize, f: &mut dyn FnMut(Pos)) {
+        let c = Col::ALL[i % 2];
+        let ortho = (i / 2) % 2 == 0;
+        let ek = self.enemy_kings[i / 4];
+        let them = c.other();
+        // lines: (screen square, squares behind it in order of distance)
+        let mut lines: Vec<(Sq, Vec<Sq>)> = Vec::new();
+        for d in DIRS8 {
+            if (d.0 == 0 || d.1 == 0) != ortho {
+                continue;
+            }
+            if let Some(s0) = refmodel::step(ek, d.0, d.1) {
+                let mut v = Vec::new();
+                let mut cur = s0;
+                while let Some(n) = refmodel::step(cur, d.0, d.1) {
+                    v.push(n);
+                    cur = n;
+                }
+                if !v.is_empty() {
+                    lines.push((s0, v));
+                }
+            }
+        }
+        let all: Vec<(usize, usize)> = lines.iter().enumerate().flat_map(|(li, (_, v))| (0..v.len()).map(move |j| (li, j))).collect();
+        let n = all.len();
+        if n < 5 {
+            return;
+        }
+        let mut idx = [0usize, 1, 2, 3, 4];
+        let mut count = 0usize;
+        loop {
+            if count % self.stride == 0 {
+                for screens in 0..3u8 {
+                    let mut p = Pos::empty();
+                    p.stm = c;
+                    put(&mut p, ek, Kind::K, them);
+                    let mut used = vec![usize::MAX; lines.len()];
+                    for &ix in &idx {
+                        let (li, j) = all[ix];
+                        if j < used[li] {
+                            used[li] = j;
+                        }
+                    }
+                    for &ix in &idx {
+                        let (li, j) = all[ix];
+                        let kind = if j == used[li] { if ortho { Kind::R } else { Kind::B } } else { Kind::Q };
+                        put(&mut p, lines[li].1[j], kind, c);
+                    }
+                    for (li, (s0, _)) in lines.iter().enumerate() {
+                        if used[li] != usize::MAX {
+                            let own = match screens {
+                                0 => false,
+                                1 => true,
+                                _ => li % 2 == 0,
+                            };
+                            put(&mut p, *s0, Kind::N, if own { c } else { them });
+                        }
+                    }
+                    let mk = (0..64u8).rev().find(|&s| {
+                        p.sq[s as usize].is_none() && (refmodel::file_of(s) as i32 - refmodel::file_of(ek) as i32).abs().max((refmodel::rank_of(s) as i32 - refmodel::rank_of(ek) as i32).abs()) > 2 && {
+                            let mut q = p.clone();
+                            put(&mut q, s, Kind::K, c);
+                            !q.in_check(c)
+                        }
+                    });
+                    if let Some(mk) = mk {
+                        put(&mut p, mk, Kind::K, c);
+                        f(p);
+                    }
+                }
+            }
+            count += 1;
+            // next 5-combination
+            let mut t = 4isize;
+            while t >= 0 && idx[t as usize] == n - 5 + t as usize {
+                t -= 1;
+            }
+            if t < 0 {
+                break;
+            }
+            idx[t as usize] += 1;
+            for u in (t as usize + 1)..5 {
+                idx[u] = idx[u - 1] + 1;
             }
         }
     }
@@ -1043,7 +1388,7 @@ impl RawUniverse for TwoLines {
 }
 
 /// Single check + pin universe: the mover's king on a few squares, every single enemy checker, and
-/// on every other line through the king one piece of the mover (N B R Q) pinned by an enemy slider.
+/// on every other line through the king one piece of the mover (P N B R Q) pinned by an enemy slider.
 pub struct CheckPin {
     pub kings: Vec<Sq>,
 }
@@ -1053,7 +1398,7 @@ impl RawUniverse for CheckPin {
     }
     fn bounds(&self) -> Value {
         json!({"mover_king_squares": self.kings, "mover_colours": 2, "checker": "every enemy N B R Q P on every square that gives check",
-               "pin": "on each of the 8 lines: one piece of the mover (N B R Q) at every distance, pinned by an enemy R|B (by line type) or Q at every distance behind it"})
+               "pin": "on each of the 8 lines: one piece of the mover (P N B R Q) at every distance, pinned by an enemy R|B (by line type) or Q at every distance behind it"})
     }
     fn parts(&self) -> usize {
         self.kings.len() * 2
@@ -1098,7 +1443,10 @@ impl RawUniverse for CheckPin {
                             break;
                         }
                         for sk in [if ortho { Kind::R } else { Kind::B }, Kind::Q] {
-                            for ok in [Kind::N, Kind::B, Kind::R, Kind::Q] {
+                            for ok in NONKING {
+                                if ok == Kind::P && (refmodel::rank_of(psq) == 0 || refmodel::rank_of(psq) == 7) {
+                                    continue;
+                                }
                                 let mut q = p.clone();
                                 put(&mut q, psq, ok, c);
                                 put(&mut q, ssq, sk, them);
